@@ -4574,7 +4574,13 @@ class Parameters:
                     value = unknown_value
 
             # Explicit kwarg (unchanged, known value)
-            if (k in kwargs) and (k in values) and kwargs[k] == values[k]: continue
+            if (k in kwargs) and (k in values):
+                try:
+                    unchanged = bool(kwargs[k] == values[k])
+                except Exception:
+                    # (== need not give a truth value, e.g. for arrays)
+                    unchanged = False
+                if unchanged: continue
 
             if k in posargs:
                 # value will be unknown_value unless k is a parameter
